@@ -1624,6 +1624,10 @@ def bytes_find(it, b, pat):
                                "(least such r: not used in the proof, checked by the bounded companion)")
         ctx.assume(z3.Or(r == -1, z3.And(r >= 0, r + k <= n, match_at(r))))
     ctx.finds = getattr(ctx, 'finds', []) + [(b, pat, r)]
+    fs = getattr(ctx, 'find_shard', None)
+    if fs is not None and len(ctx.finds) <= len(fs):
+        # a shard of the unit covers the inputs on which this search has the given outcome (the shards together cover both)
+        ctx.assume((r == -1) if fs[len(ctx.finds) - 1] else (r != -1))
     return r
 
 
